@@ -38,6 +38,7 @@ func init() {
 			checkC17Wrap(c)
 			checkC17Help(c, budget(c.Tier, 400, 40000))
 			checkC17Nested(c, budget(c.Tier, 200, 8000))
+			checkHelpAfterWidening(c, budget(c.Tier, 60, 1500), "C17")
 		}}
 	props["C19"] = propRun{
 		rule: "(a) tags rendered from random (key, value) lists with strconv.Quote and random blanks, one third mutated at a random byte position, through the scanner; (b) generated declarations (15% deliberately malformed / colliding / over-long short names / defaults on flags) built on the real library and in the model, full dump of the public model compared, attributes checked against reflect.StructTag; (c) duplicates stage: one declaration with two options of different groups sharing a short or (namespaced) long name - top level / nested / sibling groups / two levels deep / created by a namespace - must be refused with ErrDuplicatedFlag, controls accepted; (d) malformed stage: a well-formed declaration in which the tag of one field (option at the top / in a group / in a command, group field, command field, positional-args field, positional argument) is broken in a definite way must be refused with ErrTag; (e) indirect-types stage, against the library only (types outside the model's universe): fields reaching bool / string / int through up to three levels of slice and pointer, with and without a default tag: a default on a boolean flag is refused with ErrInvalidTag whatever the indirection, everything else is accepted; (f) containers stage, against the library only: a struct (or pointer to one) used as group / command / positional-args / untagged nested struct whose type also implements Unmarshaler (pointer receiver, value receiver, promoted): the public model holds the group with its namespaced options and defaults, the command with its aliases, the positional arguments; a malformed tag inside it is refused with ErrTag; (g) late-group stage, library only: a declaration attached with (*Group).AddGroup (also below a nested group), Command.AddGroup or Parser.AddGroup whose options clash (short, long, long through a namespace) is refused with ErrDuplicatedFlag, one without a clash is accepted; distinct per tag / declaration",
@@ -91,6 +92,7 @@ func init() {
 			checkC11Values(c, budget(c.Tier, 2500, 150000))
 			checkC11EnvList(c, budget(c.Tier, 800, 30000))
 			checkC11ChoicesChanged(c, budget(c.Tier, 300, 10000))
+			checkC11DefaultChanged(c, budget(c.Tier, 150, 5000))
 			checkC11DeepUnmarshaler(c, budget(c.Tier, 200, 4000))
 		}}
 }
@@ -157,6 +159,7 @@ func init() {
 			base.run(c)
 			checkC04Typed(c, budget(c.Tier, 800, 30000))
 			checkIniAddOption(c, budget(c.Tier, 40, 1000), "C04")
+			checkHelpAfterWidening(c, budget(c.Tier, 60, 1500), "C04")
 			checkC04CallbackTypes(c, budget(c.Tier, 200, 4000))
 			checkC04StructTypes(c, budget(c.Tier, 150, 3000))
 		}}
@@ -178,6 +181,7 @@ func init() {
 			checkC06Reuse(c, budget(c.Tier, 300, 10000))
 			checkC06BeforeCommand(c, budget(c.Tier, 200, 6000))
 			checkC06RequiredChanged(c, budget(c.Tier, 200, 6000))
+			checkC06IniSupplied(c, budget(c.Tier, 100, 3000))
 		}}
 	}
 	parseProp("C07", caseRule+"emphasis: unknown / near-miss / out-of-scope options under the three policies", 2500, 100000, func(p *Profile) {
@@ -248,6 +252,7 @@ func init() {
 			checkC10Bind(c, budget(c.Tier, 1500, 60000))
 			checkC10Levels(c, budget(c.Tier, 600, 30000))
 			checkC10SliceUnmarshaler(c, budget(c.Tier, 150, 5000))
+			checkC10AfterHelp(c, budget(c.Tier, 100, 3000))
 		}}
 	}
 }
